@@ -27,6 +27,25 @@ func init() {
 				}
 				return true
 			})
+		case strings.HasPrefix(spec, "own:"):
+			// own:<file-substring> — acquisition roots and their outcomes
+			sub := strings.TrimPrefix(spec, "own:")
+			var fs []*Func
+			for _, f := range p.AllFuncs {
+				if f.Body != nil && strings.Contains(p.Pos(f.Body.Pos()), sub) {
+					fs = append(fs, f)
+				}
+			}
+			o := p.NewOwn()
+			c09Assumptions(o)
+			for _, rt := range o.Roots(fs, nil) {
+				o.Run(rt)
+				fmt.Printf("%s  %s  [%s]\n", p.Pos(rt.Node.Pos()), rt.Desc(), rt.Key)
+				for _, x := range rt.Outs {
+					fmt.Printf("      %-9s err=%-6s %s  @%s\n", x.Kind, x.Err, x.Why, x.Pos)
+				}
+			}
+			fmt.Println("states:", o.States, "undecided:", o.Undecided)
 		case strings.HasPrefix(spec, "table:"):
 			f := p.Fn(strings.TrimPrefix(spec, "table:"))
 			t := p.NewTable(f)
